@@ -874,7 +874,10 @@ def parse_insn_operand(ctx, insn_name, operand_idx, **kwargs):
     else:
         operand_type = int
 
-    assert operand_type in (str, int)
+    if operand_type not in (str, int):
+        # An operand was written where a code block is expected, e.g. '.repeat 1, 2'.
+        # Parse it as an expression; the operand count check reports the error later.
+        operand_type = int
 
     if operand_type is str:
         return long_string(ctx, **kwargs)
